@@ -184,6 +184,8 @@ def observe(case):
             continue
         if law == "chunks" and not (1 <= x <= 4):
             continue
+        if law == "product" and len(A) > 9:
+            continue        # TLC integers are 32-bit: 9^9 fits, 9^10 does not (a false alarm of a thorough run otherwise)
         if kind == "2" or law in ("sort", "cumsum", "group", "counts", "uniquify", "gradeup") or (len(A) + x) % 2 == 0 or len(A) <= 2:
             calls.append(call_law(law, A, B, x, lazy))
     return {"calls": calls}
